@@ -49,6 +49,7 @@ def run(an: Analysis, rep):
     from . import json_fold
     rep.run(json_fold.fold_rule, an, rep)
     rep.run(json_fold.encode_fold_rule, an, rep)
+    rep.run(json_fold.constants_fold_rule, an, rep)
     rep.run(r07l, an, rep)
     from .common import old_interpreter_rule
     rep.run(old_interpreter_rule, an, rep, "R07.V", ["to_json", "from_json"])
